@@ -681,6 +681,16 @@ class Executor(object):
         return names
 
     def _loop(self, s, st, it, spec, ordn):
+        # a loop contract is bound to its loop by ordinal: when the code's loop structure changes, the invariant's
+        # ghost code may meet a different kind of sequence or miss a local.  That is "the contract no longer fits
+        # the code" (undecided -> replay search on the real code), never a crash of the check.
+        try:
+            return self._loop_body(s, st, it, spec, ordn)
+        except (AttributeError, KeyError, TypeError, IndexError) as e:
+            raise Undecided('loop contract %s no longer fits the code at line %d (%s: %s)'
+                            % (ordn, s.lineno, type(e).__name__, e))
+
+    def _loop_body(self, s, st, it, spec, ordn):
         tgt_names = set(n.id for n in ast.walk(s.target) if isinstance(n, ast.Name))
         assigned = self._assigned_names(s.body) | tgt_names
         pre_env = dict(st.env)
